@@ -4,6 +4,8 @@ import re
 from . import analysis as A
 from . import roles
 from . import writers as W
+from . import sched as S
+from . import deep as D
 from .c04 import role_enqueue, role_get, role_insert, _reaches_block
 from .mir import Site, Unverifiable, callee_is, callee_path, const_int, op_fn, op_local, op_place, place_fields, place_str
 
@@ -381,31 +383,34 @@ def r4(F, R):
             rsl = A.slice_back(b, start_locals=[0])
             ok = ok and any(s == cs[0][0] for s, _ in rsl.calls)
         R.check(ok, "left-until-retry/formula", b, "dur.checked_sub(instant.elapsed())", "left_until_retry is not `delay.checked_sub(instant.elapsed())`")
-    # drain predicate keeps entries with time left
+    # drain predicate keeps entries with time left — decided on its path table (deep.py / sched.py), not on its spelling
     aw, get = role_get(F)
-    moe = [(b, s, t) for b in F.nested(get) for s, t in b.calls(lambda t: callee_is(t, r"Option::<.*>::map_or_else$"))
-           if b.locals[t["dest"]["l"]] == "bool"]
-    R.check(len(moe) == 1, "drain-predicate/found", get, "", f"{len(moe)} map_or_else->bool in GET")
-    if len(moe) == 1:
-        b, s, t = moe[0]
-        rsl = A.slice_back(b, [t["args"][0]])
-        uses_lur = any((op_fn(a) or {}).get("path") == lur[0].name for _, ct in rsl.calls for a in ct["args"]) or \
-            any(F.callee_body(ct) is lur[0] for _, ct in rsl.calls) if len(lur) == 1 else False
-        R.check(uses_lur, "drain-predicate/uses-left-until-retry", s, "readiness = left_until_retry().is_none()", "the drain predicate does not consult left_until_retry")
-        def closure_ret(op):
-            kb = A.closure_of_operand(F, b, op)
-            if kb is None:
-                return None, None
-            vals = {p.ret for p in A.enumerate_paths(kb)}
-            return kb, vals
-        kn, vn = closure_ret(t["args"][1])
-        ks, vs = closure_ret(t["args"][2])
-        R.check(vn == {True}, "drain-predicate/ready-is-taken", kn or s, "no time left -> drained", f"entries without time left are {'kept' if vn == {False} else vn}")
-        R.check(vs == {False}, "drain-predicate/not-ready-is-kept", ks or s, "time left -> kept in the queue", f"entries with time left are {'drained (started before their delay elapsed)' if vs == {True} else vs}")
-        # the Some closure records the minimum
-        if ks is not None:
-            R.check(any(callee_is(ct, r"cmp::min$", r"Ord::min$") for nb in F.nested(ks) for _, ct in nb.calls()), "drain-predicate/min-recorded", ks,
-                    "minimum remaining time is recorded", "the minimum remaining delay is not recorded with cmp::min")
+    PT = S.PredTable(F)
+    kb = PT.pred
+    R.ok("drain-predicate/found", kb, "closure passed to the drain primitive")
+    outs = [PT.lur_outcome(p) for p in PT.paths]
+    R.check(any(o is not None for o in outs), "drain-predicate/uses-left-until-retry", kb, "readiness = left_until_retry().is_none()", "the drain predicate does not consult left_until_retry")
+    for p in PT.true_paths:
+        o = PT.lur_outcome(p)
+        no_opts = o is None and any(a[0] == "discr" and out == "None" and not PT.is_lur(a[1]) and D.mentions(a[1], lambda x: x == ("arg", 2)) for a, out in p.conds)
+        R.check(o == "None" or no_opts, "drain-predicate/ready-is-taken", kb, "drained only with no time left (or no retry options)",
+                "an entry is drained although left_until_retry() says there is time left — or without asking: a delayed retry starts before its delay elapsed")
+    for p in PT.paths:
+        if PT.lur_outcome(p) == "Some":
+            R.check(p in PT.false_paths, "drain-predicate/not-ready-is-kept", kb, "time left -> kept in the queue", "entries with time left are drained (started before their delay elapsed)")
+            lur_t = [a[1] for a, out in p.conds if a[0] == "discr" and PT.is_lur(a[1])][0]
+            left = ("field", ("as", lur_t, "Some"), 0)
+            ws = [e for e in p.effects if e[0] == "write" and D.mentions(e[2], lambda x: x == left)]
+            ok_min = len(ws) == 1
+            if ok_min:
+                place, val = ws[0][1], ws[0][2]
+                prev = S._read_term(place)
+                prev_some = any(a == ("discr", prev) and out == "Some" for a, out in p.conds)
+                if prev_some:
+                    ok_min = D.mentions(val, lambda x: x[0] == "call" and re.search(r"cmp::min$|Ord::min$", x[1]) and
+                                        any(D.mentions(y, lambda z: z == left) for y in x[2]) and any(D.mentions(y, lambda z: z == prev) for y in x[2]))
+            R.check(ok_min, "drain-predicate/min-recorded", kb, "minimum remaining time is recorded",
+                    "the minimum remaining delay is not recorded (min of the previous minimum and this entry's remaining time)")
     # EXECUTE sleeps on that minimum
     ex = roles.execute(F)
     sleeps = [(b, s, t) for b in F.nested(ex) for s, t in b.calls(lambda t: callee_is(t, r"thread::sleep$"))]
